@@ -158,7 +158,8 @@ func ValidateIssuer(issuer string, allowInsecure bool) error {
 	if err != nil {
 		return ErrInvalidIssuerURL
 	}
-	if u.Host == "" {
+	// u.Host also contains the port, an issuer like https://:8443 has no host
+	if u.Hostname() == "" {
 		return ErrInvalidIssuerMissingHost
 	}
 	if u.Scheme != "https" {
